@@ -5,6 +5,7 @@
 use std::env;
 
 mod u_partial;
+mod u_members;
 
 fn main() {
     let args: Vec<String> = env::args().collect();
@@ -18,6 +19,7 @@ fn main() {
     let out = match (mode, unit) {
         ("search", "c02_partial") => u_partial::search(),
         ("run", "c02_partial") => u_partial::run(rest),
+        ("search", "c18_members") => u_members::search(),
         _ => {
             eprintln!("unknown unit {unit}");
             std::process::exit(2);
